@@ -362,6 +362,7 @@ ENUM_CFGS = [
     {"max": 0, "width": 4, "min": 0, "out": "plain", "format": "F2"},
     {"max": 3, "width": 8, "min": 0.1, "out": "section", "format": None},
     {"max": 10, "width": 6, "min": 0, "out": "section", "format": None, "columns": 20},
+    {"max": 300, "width": 5, "min": 0.1, "out": "plain", "format": None},
     {"max": 3, "width": 6, "min": 0, "out": "plain-section", "format": None},
     {"max": 10, "width": 8, "min": 0, "out": "ansi", "format": None, "quiet": True},
     {"max": 3, "width": 3, "min": 0.1, "out": "ansi", "format": "F3"},
@@ -376,7 +377,8 @@ def shard_enum(ctx, arg):
         for oi in (first,) + rest:
             op = list(ENUM_OPS[oi])
             if op == ["set", "MAX"]:
-                op = ["set", cfg["max"] or 4]
+                # (one below a large maximum, so that the following advance reaches it with a freshly computed int)
+                op = ["set", (cfg["max"] - 1 if cfg["max"] > 256 else cfg["max"]) or 4]
             ops.append(op)
         run_case(ctx, "sequences", {"cfg": cfg, "ops": ops}, by_construction=True)
 
@@ -399,7 +401,7 @@ def fit_columns(cfg):
 
 def random_case():
     cfg = st.fixed_dictionaries({
-        "max": st.sampled_from([0, 1, 3, 10, 50, 200]),
+        "max": st.sampled_from([0, 1, 3, 10, 50, 200, 300, 1000]),
         "width": st.integers(1, 40),
         "min": st.sampled_from([0, 0.1, 0.5]),
         "out": st.sampled_from(["ansi", "ansi", "plain", "section", "plain-section"]),
@@ -415,7 +417,7 @@ def random_case():
         st.just(["start"]), st.tuples(st.just("start"), st.sampled_from([1, 5, 20])).map(list),
         st.tuples(st.just("advance"), st.sampled_from([1, 1, 1, 2, 7, -1])).map(list),
         st.tuples(st.just("advance"), st.sampled_from([1, 1, 1, 2, 7, -1])).map(list),
-        st.tuples(st.just("set"), st.sampled_from([0, 1, 2, 3, 10, 29, 50, 200, 250, -3])).map(list),
+        st.tuples(st.just("set"), st.sampled_from([0, 1, 2, 3, 10, 29, 50, 200, 250, 299, 999, -3])).map(list),
         st.just(["display"]), st.just(["clear"]), st.just(["finish"]),
         st.tuples(st.just("msg"), st.sampled_from(sorted(MESSAGES))).map(list),
         st.tuples(st.just("tick"), st.sampled_from([0, 0.01, 0.05, 0.2, 2])).map(list),
